@@ -19,4 +19,4 @@ For each change deliver, under {wt}.out/A and {wt}.out/B (create these directori
 
 How to build and test here (offline): `cd {wt} && export GOFLAGS=-mod=mod GOPROXY=off` then `go build ./... ` / `go test -vet=off -count=1 ./PVM/... ./internal/utilities/... ./internal/types/... ` etc. Do not set GOTOOLCHAIN or GOSUMDB. IMPORTANT: the submodule pkg/Rust-VRF is empty and pkg/erasure_coding needs an absent Rust library, so packages importing them (internal/safrole, blockchain, stf, accumulation, extrinsic, statistics, recent_history, authorization, fuzz, work_package, merklization, ...) only compile with pure-Go stand-ins injected by an overlay: run `/tmp/mut_support/mkov.sh {wt}` once, then pass `-overlay {wt}.overlay.json` to go build / go test for those packages. "The existing test suite passes" means: `cd {wt} && go test -vet=off -count=1 ./... 2>&1 | grep -E "^(ok|FAIL|---)"` shows no NEW failure compared with the unmodified worktree (several packages fail to build without the overlay and a few tests fail even unmodified: TestSignExtend/InvalidInput*, TestSingleInitializer, TestSkip, TestExtrinsicGuaranteeSerialization, TestHeaderSerialization, TestSerializeWorkPackage, TestWorkReportSerialization, TestWorkResultSerialization - ignore those). Run the suite on the unmodified worktree first to get your baseline, and again with each change.
 
-Verify everything yourself: the change compiles, the suite shows no new failure, the demo fails with the change and passes without it. Keep the worktree clean at the end (git checkout -- . ; remove untracked files you added), leaving only the deliverables under {wt}.out/. Report a short summary of A and B.""")
+Never use `git stash` (the stash is shared by all worktrees of the repository and other agents work in sibling worktrees): keep your changes as patch files and use `git apply` / `git apply -R` / `git checkout -- .`. Verify everything yourself: the change compiles, the suite shows no new failure, the demo fails with the change and passes without it. Keep the worktree clean at the end (git checkout -- . ; remove untracked files you added), leaving only the deliverables under {wt}.out/. Report a short summary of A and B.""")
